@@ -67,12 +67,12 @@ def match(prop, r, signature):
     p, o = r.p, r.o
     if mpls_underdeclared(p, o) and signature == 'CRASH AssertionError':
         return 'F7'
+    if o['rule'] in ('meek', 'warren') and signature == 'C05' and has_stable_exit(r.impl):
+        return 'M5'
     cls = meek_collapse_class(p, o)
     if cls is not None:
         if signature in ('CRASH ZeroDivisionError', 'CRASH AssertionError', 'CRASH IndexError'):
             return 'M1'
         if signature in ('C08k', 'C09', 'C01', 'C04c', 'C05', 'EXC'):
             return 'M2'
-    if o['rule'] in ('meek', 'warren') and signature == 'C05' and has_stable_exit(r.impl):
-        return 'M5'
     return None
